@@ -86,6 +86,12 @@ pub struct CallCfg {
     pub incl: bool,
     /// `(function, ok)`: functions whose future is ready on its first poll.
     pub imm: Vec<(usize, bool)>,
+    /// `sig=<i>` (optional token): the user future of function `i` itself sends the interrupt
+    /// signal in the poll in which it completes (a signal sent in the middle of a poll of the call).
+    pub sig: Option<usize>,
+    /// `bops=<p>` (optional token, `t` runs): every user future performs `p` budget-consuming tokio
+    /// operations before it completes.
+    pub bops: usize,
 }
 
 impl CallCfg {
@@ -101,6 +107,8 @@ impl CallCfg {
             strat: Strat::Non,
             incl: true,
             imm: Vec::new(),
+            sig: None,
+            bops: 0,
         }
     }
 
@@ -134,7 +142,7 @@ pub fn fmt_call_cfg(c: &CallCfg) -> String {
             .collect::<Vec<_>>()
             .join(",")
     };
-    format!(
+    let mut out = format!(
         "api={} mut={} ctl={} with={} ord={} lim={} strat={} incl={} imm={}",
         c.api.token(),
         b01(c.mutable),
@@ -145,7 +153,14 @@ pub fn fmt_call_cfg(c: &CallCfg) -> String {
         c.strat.token(),
         b01(c.incl),
         imm
-    )
+    );
+    if let Some(i) = c.sig {
+        out.push_str(&format!(" sig={i}"));
+    }
+    if c.bops > 0 {
+        out.push_str(&format!(" bops={}", c.bops));
+    }
+    out
 }
 
 #[derive(Clone, Debug, PartialEq, Eq, Hash)]
@@ -504,6 +519,21 @@ fn kv_tokens<'a>(s: &'a str, keys: &[&str]) -> Result<Vec<&'a str>, String> {
 }
 
 pub fn parse_call_cfg(s: &str) -> Result<CallCfg, String> {
+    // optional trailing tokens
+    let mut sig = None;
+    let mut bops = 0usize;
+    let mut core: Vec<&str> = Vec::new();
+    for t in s.split_whitespace() {
+        if let Some(v) = t.strip_prefix("sig=") {
+            sig = Some(v.parse::<usize>().map_err(|_| format!("bad sig `{t}`"))?);
+        } else if let Some(v) = t.strip_prefix("bops=") {
+            bops = v.parse::<usize>().map_err(|_| format!("bad bops `{t}`"))?;
+        } else {
+            core.push(t);
+        }
+    }
+    let core = core.join(" ");
+    let s: &str = &core;
     let v = kv_tokens(
         s,
         &[
@@ -542,6 +572,8 @@ pub fn parse_call_cfg(s: &str) -> Result<CallCfg, String> {
         strat: Strat::parse(v[6]).ok_or_else(|| format!("bad strat `{}`", v[6]))?,
         incl: parse_01(v[7], "incl")?,
         imm,
+        sig,
+        bops,
     };
     cfg.validate()?;
     Ok(cfg)
